@@ -11,6 +11,7 @@ from typing import TypeVar
 from typing import assert_never
 from uuid import UUID
 
+from kio.schema.errors import ErrorCode
 from kio.serial._introspect import EntityField
 from kio.serial._introspect import EntityTupleField
 from kio.serial._introspect import PrimitiveField
@@ -47,6 +48,8 @@ primitive_implicit_defaults: Final[Mapping[type, object]] = MappingProxyType(
         i32: i32(0),
         i64: i64(0),
         f64: f64(0.0),
+        bool: False,
+        ErrorCode: ErrorCode.none,
         i32Timedelta: i32Timedelta.parse(timedelta(0)),
         i64Timedelta: i64Timedelta.parse(timedelta(0)),
         TZAware: tz_aware_from_i64(i64(0)),
